@@ -1010,10 +1010,11 @@ CLEANUP:
 }
 
 
-/* the devex weights and reference frames of the pricing record are laid out
- * for the numbers of rows and columns they were built with; a call that adds rows
- * or columns and keeps the factorization (so that the next dual solve keeps the
- * pricing record) must drop them - they are rebuilt when they are missing */
+/* the devex weights and reference frames and the primal steepest-edge norms
+ * of the pricing record are laid out for the numbers of rows and columns they
+ * were built with; a call that adds rows or columns and keeps the factorization
+ * (so that the next dual solve keeps the pricing record) must drop them - they
+ * are rebuilt when they are missing */
 /* the steepest-edge norms kept with the basis are weights of the rows and
  * columns of the inverse of the current basis matrix: a call that changes
  * entries of the matrix (a coefficient, the sign of a logical column) makes
@@ -1038,6 +1039,7 @@ static void drop_devex_info (
 		ILL_IFFREE(p->pricing->pdinfo.refframe);
 		EGLPNUM_TYPENAME_EGlpNumFreeArray (p->pricing->ddinfo.norms);
 		ILL_IFFREE(p->pricing->ddinfo.refframe);
+		EGLPNUM_TYPENAME_EGlpNumFreeArray (p->pricing->psinfo.norms);
 	}
 }
 
